@@ -24,7 +24,7 @@ RULE = (
     "cache (the harness wraps the YAML library's load, later runs must report the new content); analyse through the "
     "API with a "
     "model file given by path (names with and without further dots, two files sharing a dotted prefix) and replace "
-    "such a file's content; switch the model file - and the ISA description used with it - between two "
+    "such a file's content; switch the model file - and the ISA description used with it - (also with the file's time stamps kept) between two "
     "contents A/B (B differs in latencies), also while a process that already loaded it is alive (in-process lookup after "
     "the edit); cut a cache file at an offset class {0 bytes, header only (1-16), "
     "mid-stream, last byte missing} or overwrite it with garbage; replace it by a cache of another format version (older or newer) holding "
@@ -616,7 +616,12 @@ class Interp:
             arch = step["arch"]
             had = bool(sb.companion(arch) or sb.homefiles(arch))
             if sb.variant[arch] != step["variant"]:
+                path_ = os.path.join(sb.data, arch + ".yml")
+                st_ = os.stat(path_)
                 sb.set_variant(arch, step["variant"])
+                if step.get("keep_mtime"):
+                    # content replaced, time stamps kept (cp -p, rsync -a, tar x): still another content
+                    os.utime(path_, ns=(st_.st_atime_ns, st_.st_mtime_ns))
                 if had:
                     f["edit_after_cache"] = True
         elif op == "damage":
@@ -746,9 +751,9 @@ def make_machine(stats, failures_out):
         def readonly(self, on):
             self.step({"op": "readonly", "on": on})
 
-        @rule(arch=st.sampled_from(ARCHS), variant=st.sampled_from(["A", "B"]))
-        def edit(self, arch, variant):
-            self.step({"op": "edit", "arch": arch, "variant": variant})
+        @rule(arch=st.sampled_from(ARCHS), variant=st.sampled_from(["A", "B"]), keep=st.booleans())
+        def edit(self, arch, variant, keep):
+            self.step({"op": "edit", "arch": arch, "variant": variant, "keep_mtime": keep})
 
         @rule(arch=st.sampled_from(ARCHS), where=st.sampled_from(["companion", "home"]),
               cls=st.sampled_from(["zero", "header", "mid", "last", "garbage"]), k=st.integers(0, 15))
@@ -799,6 +804,28 @@ def fault_enumeration(archs, stats, failures):
                 stats.evaluations += 1
                 stats.nontrivial.add(core.case_hash(it.history[:upto]))
             stats.classes["fault:edit-in-living-process"] += 1
+        except Violation as v:
+            stats.evaluations += 1
+            if v.bucket not in failures:
+                failures[v.bucket] = failure_record(ID, {"history": list(it.history)}, v)
+        finally:
+            it.close()
+    # the model file's content is replaced but its time stamps are kept
+    for arch in archs:
+        it = Interp()
+        k0 = kernels_for(arch)[0]
+        hist = [{"op": "run", "arch": arch, "kernel": k0, "fixed": False},
+                {"op": "edit", "arch": arch, "variant": "B", "keep_mtime": True},
+                {"op": "run", "arch": arch, "kernel": k0, "fixed": False},
+                {"op": "edit", "arch": arch, "variant": "A", "keep_mtime": True},
+                {"op": "run", "arch": arch, "kernel": k0, "fixed": True}]
+        try:
+            for s_ in hist:
+                it.do(s_)
+            for upto in it.facts["checked"]:
+                stats.evaluations += 1
+                stats.nontrivial.add(core.case_hash(it.history[:upto]))
+            stats.classes["fault:content-replaced-time-stamps-kept"] += 1
         except Violation as v:
             stats.evaluations += 1
             if v.bucket not in failures:
